@@ -114,7 +114,7 @@ func affineOf(r *secp256k1.XYZ) (ref.Point, bool) {
 	if z.Sign() == 0 {
 		return ref.Infinity, false
 	}
-	zi := ref.FInv(z)
+	zi := new(big.Int).ModInverse(z, ref.P)
 	zi2 := ref.FSqr(zi)
 	return ref.Point{X: ref.FMul(x, zi2), Y: ref.FMul(y, ref.FMul(zi2, zi))}, true
 }
@@ -201,13 +201,23 @@ func replayGroup(rp *reporter, ln *Line, rng *rand.Rand) {
 		for k, v := range coordsHex(a) {
 			bts["a."+k] = v
 		}
+		a0 := *a                       // the input register as it was (the call may overwrite it when d = a)
+		var again func(*secp256k1.XYZ) // the same call once more, with the very same operand objects
+		var kept []func() string       // operand objects that must still hold their values after the call
 		switch st.Op {
 		case "Add":
 			bts["operand_b"] = ptHex(want[st.B])
 			for k, v := range coordsHex(&reg[st.B]) {
 				bts["b."+k] = v
 			}
-			a.Add(d, &reg[st.B])
+			bReg := &reg[st.B]
+			a.Add(d, bReg)
+			switch {
+			case st.A == st.B && st.D != st.A:
+				again = func(t *secp256k1.XYZ) { a.Add(t, a) } // one object as both inputs
+			case st.D != st.B:
+				again = func(t *secp256k1.XYZ) { a0.Add(t, bReg) }
+			}
 		case "AddXY":
 			f, ok := affForms[st.X]
 			if !ok {
@@ -222,10 +232,22 @@ func replayGroup(rp *reporter, ln *Line, rng *rand.Rand) {
 				xy.Y.SetB32(rnd32(rng))
 			}
 			a.AddXY(d, &xy)
+			again = func(t *secp256k1.XYZ) { a0.AddXY(t, &xy) }
+			kept = append(kept, func() string {
+				if xy.Infinity != p.Inf {
+					return "the affine operand's infinity flag changed"
+				}
+				if !p.Inf && (!bytes.Equal(normBytes(&xy.X), ref.B32(p.X)) || !bytes.Equal(normBytes(&xy.Y), ref.B32(p.Y))) {
+					return "the affine operand changed"
+				}
+				return ""
+			})
 		case "Double":
 			a.Double(d)
+			again = func(t *secp256k1.XYZ) { a0.Double(t) }
 		case "Neg":
 			a.Neg(d)
+			again = func(t *secp256k1.XYZ) { a0.Neg(t) }
 		case "ECmult":
 			na, e1 := env.scalar(st.Na)
 			ng, e2 := env.scalar(st.Ng)
@@ -234,7 +256,18 @@ func replayGroup(rp *reporter, ln *Line, rng *rand.Rand) {
 				return
 			}
 			bts["na"], bts["ng"] = na.Text(16), ng.Text(16)
-			a.ECmult(d, num(na), num(ng))
+			naObj, ngObj := num(na), num(ng)
+			a.ECmult(d, naObj, ngObj)
+			again = func(t *secp256k1.XYZ) { a0.ECmult(t, naObj, ngObj) }
+			kept = append(kept, func() string {
+				if naObj.Cmp(na) != 0 || !bytes.Equal(naObj.Bytes(), na.Bytes()) {
+					return fmt.Sprintf("the scalar na was changed by the call: now %x", naObj.Bytes())
+				}
+				if ngObj.Cmp(ng) != 0 || !bytes.Equal(ngObj.Bytes(), ng.Bytes()) {
+					return fmt.Sprintf("the scalar ng was changed by the call: now %x", ngObj.Bytes())
+				}
+				return ""
+			})
 		case "ECmultGen":
 			s, e1 := env.scalar(st.Na)
 			if e1 != nil {
@@ -242,7 +275,15 @@ func replayGroup(rp *reporter, ln *Line, rng *rand.Rand) {
 				return
 			}
 			bts["scalar"] = s.Text(16)
-			secp256k1.ECmultGen(d, num(s))
+			sObj := num(s)
+			secp256k1.ECmultGen(d, sObj)
+			again = func(t *secp256k1.XYZ) { secp256k1.ECmultGen(t, sObj) }
+			kept = append(kept, func() string {
+				if sObj.Cmp(s) != 0 || !bytes.Equal(sObj.Bytes(), s.Bytes()) {
+					return fmt.Sprintf("the scalar was changed by the call: now %x", sObj.Bytes())
+				}
+				return ""
+			})
 		case "Lift":
 			// XY.SetXO with the abscissa of the operand; the behaviour continues only if its assumption about
 			// which of P, -P has the requested parity is true for this k
@@ -300,26 +341,62 @@ func replayGroup(rp *reporter, ln *Line, rng *rand.Rand) {
 			rp.fail(i, "C08:group:"+st.Op+":infinity-flag", fmt.Sprintf("XYZ.%s: Infinity = %v, the group law gives %s", st.Op, d.Infinity, ptHex(wp)), bts)
 			return
 		}
-		if st.Inf {
-			continue
+		if !st.Inf {
+			got, ok := affineOf(d)
+			sum.add(0, 0, 1)
+			if !ok || !got.Equal(wp) {
+				bts["got"] = ptHex(got)
+				rp.fail(i, "C08:group:"+st.Op+":point", "XYZ."+st.Op+" does not return the point defined by the group law", bts)
+				return
+			}
+			// every coordinate stays within the magnitude the group layer relies on (Curve.tla, GroupMagMax)
+			sum.add(0, 0, 1)
+			if !withinMagnitude(d.X.VerifLimbs(), 8) || !withinMagnitude(d.Y.VerifLimbs(), 8) || !withinMagnitude(d.Z.VerifLimbs(), 8) {
+				rp.fail(i, "C08:group:"+st.Op+":magnitude", "a coordinate of the result exceeds magnitude 8", bts)
+				return
+			}
+			// the conversion / serialisation API on every result
+			if !observeGroup(rp, i, d, wp, v, bts, true) {
+				return
+			}
 		}
-		got, ok := affineOf(d)
+		// operands are values: every other register and every operand object still denotes what it did
 		sum.add(0, 0, 1)
-		if !ok || !got.Equal(wp) {
-			bts["got"] = ptHex(got)
-			rp.fail(i, "C08:group:"+st.Op+":point", "XYZ."+st.Op+" does not return the point defined by the group law", bts)
+		changed := ""
+		for r := 1; r <= 3 && changed == ""; r++ {
+			if r == st.D {
+				continue
+			}
+			if reg[r].Infinity != want[r].Inf {
+				changed = fmt.Sprintf("register %d: infinity flag changed", r)
+			} else if !want[r].Inf {
+				if g, ok := affineOf(&reg[r]); !ok || !g.Equal(want[r]) {
+					changed = fmt.Sprintf("register %d no longer denotes %s", r, ptHex(want[r]))
+				}
+			}
+		}
+		for _, f := range kept {
+			if changed == "" {
+				changed = f()
+			}
+		}
+		if changed != "" {
+			rp.fail(i, "C08:group:"+st.Op+":operand-changed", "XYZ."+st.Op+" modified an input that is not its destination: "+changed, bts)
 			return
 		}
-		// every coordinate stays within the magnitude the group layer relies on (Curve.tla, GroupMagMax)
-		sum.add(0, 0, 1)
-		if !withinMagnitude(d.X.VerifLimbs(), 8) || !withinMagnitude(d.Y.VerifLimbs(), 8) || !withinMagnitude(d.Z.VerifLimbs(), 8) {
-			rp.fail(i, "C08:group:"+st.Op+":magnitude", "a coordinate of the result exceeds magnitude 8", bts)
-			return
+		// the same call again with the very same operand objects
+		if st.Reuse && again != nil {
+			var tmp secp256k1.XYZ
+			again(&tmp)
+			sum.add(0, 1, 1)
+			g2, ok2 := affineOf(&tmp)
+			if tmp.Infinity != st.Inf || (!st.Inf && (!ok2 || !g2.Equal(wp))) {
+				bts["second_result"] = ptHex(g2)
+				rp.fail(i, "C08:group:"+st.Op+":reuse", "XYZ."+st.Op+" called a second time with the same operand objects does not return the same point", bts)
+				return
+			}
 		}
-		// the conversion / serialisation API on every result
-		if !observeGroup(rp, i, d, wp, v, bts, true) {
-			return
-		}
+
 	}
 }
 
@@ -339,6 +416,12 @@ func observeGroup(rp *reporter, i int, a *secp256k1.XYZ, want ref.Point, v *big.
 	cp := *a
 	var xy secp256k1.XY
 	xy.SetXYZ(&cp)
+	// SetXYZ rescales its argument in place (Z = 1): it must still be the same point
+	sum.add(0, 0, 1)
+	if g, ok := affineOf(&cp); cp.Infinity || !ok || !g.Equal(want) {
+		rp.fail(i, "C08:group:SetXYZ:operand-changed", "XY.SetXYZ left its XYZ argument denoting another point", bts)
+		return false
+	}
 	wu, wc := ref.SerializePubKey(want, false), ref.SerializePubKey(want, true)
 	var u [65]byte
 	var c [33]byte
